@@ -34,6 +34,11 @@ package usage
 //@ optional site (client.Writer).Patch(_, _, $o, _)
 //@   assert [C19:only-annotates-the-object-in-use] $o == u && !listedNone
 //@ ensures [C19:allowed-only-without-usages] result.Allowed ==> listedNone
+// a refusal because of Usages (409) leaves the attempt recorded on the resource with the
+// propagation policy of THIS request (Background when the request names none)
+//@ ensures [C19:refused-attempt-is-recorded-with-its-policy] (!result.Allowed && result.Result != nil && result.Result.Code == 409) ==>
+//@      ((opts.PropagationPolicy == nil ==> u.GetAnnotations()["usage.crossplane.io/deletion-attempt-with-policy"] == "Background")
+//@        && (opts.PropagationPolicy != nil ==> u.GetAnnotations()["usage.crossplane.io/deletion-attempt-with-policy"] == *opts.PropagationPolicy))
 
 //@ func usage.IndexValueForObject
 //@ frame fresh-only
